@@ -274,6 +274,246 @@ theorem dropZeros_length (l : Bytes) : (l.dropWhile (· == 0)).length ≤ l.leng
   | nil => simp
   | cons x xs ih => simp only [List.dropWhile_cons]; split <;> simp <;> omega
 
+/-! ### address parts -/
+
+theorem part_roundtrip (p : AddrPart) (v : Val) (r : Bytes) (hv : p.valid v = true) :
+    p.decode (p.encode v ++ r) = .ok (v, r) := by
+  cases p <;> cases v <;> simp [AddrPart.valid] at hv
+  · rename_i n b
+    simp [AddrPart.decode, AddrPart.encode, hv, List.take_left' hv, List.drop_left' hv]
+  · rename_i x
+    simp [AddrPart.decode, AddrPart.encode, readUint_encode, Nat.mod_eq_of_lt (show x < 256 ^ 2 by omega)]
+  · rename_i x
+    simp [AddrPart.decode, AddrPart.encode, readUint_encode, Nat.mod_eq_of_lt (show x < 256 ^ 1 by omega)]
+  · rename_i b
+    obtain ⟨h1, h2⟩ := hv
+    simp only [AddrPart.decode, AddrPart.encode, List.append_assoc, readUint_encode, Nat.mod_eq_of_lt (show b.length < 256 ^ 1 by omega)]
+    simp only [List.length_append, List.take_left' rfl, List.drop_left' rfl, List.all_eq_true]
+    rw [if_neg (by omega), if_pos h2]
+
+theorem part_decode_exact (p : AddrPart) (b : Bytes) (v : Val) (r : Bytes) (h : p.decode b = .ok (v, r)) :
+    b = p.encode v ++ r ∧ p.valid v = true := by
+  cases p with
+  | bytes n =>
+    simp only [AddrPart.decode] at h
+    split at h
+    · cases h
+    · rename_i hl
+      cases h
+      simp [AddrPart.encode, AddrPart.valid, List.length_take]; omega
+  | u16 =>
+    simp only [AddrPart.decode] at h
+    split at h
+    · cases h
+    · rename_i x r' hr
+      cases h
+      obtain ⟨e, hx⟩ := readUint_ok hr
+      exact ⟨e, by simp [AddrPart.valid]; omega⟩
+  | u8 =>
+    simp only [AddrPart.decode] at h
+    split at h
+    · cases h
+    · rename_i x r' hr
+      cases h
+      obtain ⟨e, hx⟩ := readUint_ok hr
+      exact ⟨e, by simp [AddrPart.valid]; omega⟩
+  | hostname =>
+    simp only [AddrPart.decode] at h
+    split at h
+    · cases h
+    · rename_i len r' hr
+      obtain ⟨e, hx⟩ := readUint_ok hr
+      split at h
+      · cases h
+      · rename_i hl
+        split at h
+        · rename_i hall
+          cases h
+          have hlen : (r'.take len).length = len := by simp [List.length_take]; omega
+          refine ⟨?_, ?_⟩
+          · simp only [AddrPart.encode, hlen, List.append_assoc, List.take_append_drop]; exact e
+          · simp only [AddrPart.valid, hlen, Bool.and_eq_true, decide_eq_true_eq]; exact ⟨by omega, hall⟩
+        · cases h
+
+theorem parts_roundtrip : ∀ (ps : List AddrPart) (vs : List Val) (r : Bytes), validParts ps vs = true →
+    decodeParts ps (encodeParts ps vs ++ r) = .ok (vs, r)
+  | [], [], r, _ => by simp [decodeParts, encodeParts]
+  | [], _ :: _, r, h => by simp [validParts] at h
+  | _ :: _, [], r, h => by simp [validParts] at h
+  | p :: ps, v :: vs, r, h => by
+    simp only [validParts, Bool.and_eq_true] at h
+    simp only [decodeParts, encodeParts, List.append_assoc, part_roundtrip p v _ h.1, parts_roundtrip ps vs r h.2]
+
+theorem parts_decode_exact : ∀ (ps : List AddrPart) (b : Bytes) (vs : List Val) (r : Bytes), decodeParts ps b = .ok (vs, r) →
+    b = encodeParts ps vs ++ r ∧ validParts ps vs = true
+  | [], b, vs, r, h => by
+    simp only [decodeParts, Except.ok.injEq, Prod.mk.injEq] at h
+    obtain ⟨rfl, rfl⟩ := h
+    simp [encodeParts, validParts]
+  | p :: ps, b, vs, r, h => by
+    simp only [decodeParts] at h
+    split at h
+    · cases h
+    · rename_i v r1 h1
+      split at h
+      · cases h
+      · rename_i vs' r2 h2
+        cases h
+        obtain ⟨e1, v1⟩ := part_decode_exact p b v r1 h1
+        obtain ⟨e2, v2⟩ := parts_decode_exact ps r1 vs' r h2
+        exact ⟨by rw [e1, e2]; simp [encodeParts], by simp [validParts, v1, v2]⟩
+
+theorem hostLen_no_host : ∀ (ps : List AddrPart) (vs : List Val), ps.contains .hostname = false → hostLen ps vs = 0
+  | [], vs, _ => by cases vs <;> simp [hostLen]
+  | p :: ps, [], _ => by cases p <;> simp [hostLen]
+  | p :: ps, v :: vs, h => by
+    simp only [List.contains_cons, Bool.or_eq_false_iff] at h
+    cases p <;> simp_all [hostLen, hostLen_no_host ps vs]
+
+theorem parts_encode_length : ∀ (ps : List AddrPart) (vs : List Val), validParts ps vs = true →
+    (encodeParts ps vs).length = staticLen ps + hostLen ps vs
+  | [], [], _ => by simp [encodeParts, staticLen, hostLen]
+  | [], _ :: _, h => by simp [validParts] at h
+  | _ :: _, [], h => by simp [validParts] at h
+  | p :: ps, v :: vs, h => by
+    simp only [validParts, Bool.and_eq_true] at h
+    have ih := parts_encode_length ps vs h.2
+    have hs : staticLen (p :: ps) = p.staticLen + staticLen ps := by simp [staticLen]
+    rw [hs]
+    cases p <;> cases v <;> simp [AddrPart.valid] at h <;>
+      simp [encodeParts, AddrPart.encode, AddrPart.staticLen, hostLen, ih, beEncode_length] <;> omega
+
+
+/-! ### the SocketAddress table -/
+
+theorem findKind_some {kinds : List AddrKind} {i : Nat} {k : AddrKind} (h : findKind kinds i = some k) : k ∈ kinds ∧ k.id = i := by
+  unfold findKind at h
+  exact ⟨List.mem_of_find?_eq_some h, by have := List.find?_some h; simpa using this⟩
+
+theorem kindsWf_mem {kinds : List AddrKind} (hk : kindsWf kinds = true) {k : AddrKind} (hm : k ∈ kinds) :
+    k.id < 256 ∧ k.lenConst = staticLen k.parts ∧ k.lenHost = k.parts.contains .hostname := by
+  simp only [kindsWf, Bool.and_eq_true, List.all_eq_true, decide_eq_true_eq, beq_iff_eq] at hk
+  obtain ⟨⟨h1, h2⟩, h3⟩ := hk.1 k hm
+  exact ⟨h1, h2, h3⟩
+
+theorem u8_ofNat_toNat (t : UInt8) : UInt8.ofNat t.toNat = t := UInt8.ofNat_toNat
+
+/-- `SocketAddress::len` + the type byte IS the number of bytes `write` produces -/
+theorem addr_encode_length {kinds : List AddrKind} (hk : kindsWf kinds = true) (a : SockAddr) (hv : a.valid kinds = true) :
+    (a.encode kinds).length = 1 + a.len kinds := by
+  unfold SockAddr.valid at hv
+  unfold SockAddr.encode SockAddr.len
+  split at hv
+  · rename_i k hf
+    obtain ⟨_, h2, h3⟩ := kindsWf_mem hk (findKind_some hf).1
+    simp only [List.length_cons, parts_encode_length _ _ hv, h2]
+    cases hh : k.lenHost
+    · rw [h3] at hh
+      simp [hostLen_no_host _ a.vals hh]; omega
+    · simp; omega
+  · cases hv
+
+theorem addr_roundtrip {kinds : List AddrKind} (hk : kindsWf kinds = true) (a : SockAddr) (r : Bytes) (hv : a.valid kinds = true) :
+    decodeAddrResult kinds (a.encode kinds ++ r) = .ok (.inl a, r) := by
+  unfold SockAddr.valid at hv
+  unfold SockAddr.encode
+  split at hv
+  · rename_i k hf
+    obtain ⟨hm, hid⟩ := findKind_some hf
+    obtain ⟨hlt, _, _⟩ := kindsWf_mem hk hm
+    have ht : (UInt8.ofNat a.id).toNat = a.id := by rw [UInt8.toNat_ofNat']; omega
+    simp only [List.cons_append, decodeAddrResult, ht, hf, parts_roundtrip _ _ r hv]
+    cases a; simp_all
+  · cases hv
+
+theorem addr_decode_exact {kinds : List AddrKind} {b : Bytes} {a : SockAddr} {r : Bytes}
+    (h : decodeAddrResult kinds b = .ok (.inl a, r)) : b = a.encode kinds ++ r ∧ a.valid kinds = true := by
+  cases b with
+  | nil => simp [decodeAddrResult] at h
+  | cons t rest =>
+    simp only [decodeAddrResult] at h
+    split at h
+    · rename_i k hf
+      split at h
+      · cases h
+      · rename_i vs r' hp
+        simp only [Except.ok.injEq, Prod.mk.injEq, Sum.inl.injEq] at h
+        obtain ⟨rfl, rfl⟩ := h
+        obtain ⟨e, hv⟩ := parts_decode_exact _ _ _ _ hp
+        have hid := (findKind_some hf).2
+        simp only [SockAddr.encode, SockAddr.valid, hid, hf, u8_ofNat_toNat, List.cons_append]
+        exact ⟨by rw [e], hv⟩
+    · cases h
+
+theorem addr_decode_unknown {kinds : List AddrKind} {b : Bytes} {x : UInt8} {r : Bytes}
+    (h : decodeAddrResult kinds b = .ok (.inr x, r)) : b = x :: r ∧ findKind kinds x.toNat = none := by
+  cases b with
+  | nil => simp [decodeAddrResult] at h
+  | cons t rest =>
+    simp only [decodeAddrResult] at h
+    split at h
+    · split at h <;> cases h
+    · rename_i hf
+      simp only [Except.ok.injEq, Prod.mk.injEq, Sum.inr.injEq] at h
+      obtain ⟨rfl, rfl⟩ := h
+      exact ⟨rfl, hf⟩
+
+theorem addr_unknown_result (kinds : List AddrKind) (x : UInt8) (r : Bytes) (h : findKind kinds x.toNat = none) :
+    decodeAddrResult kinds (x :: r) = .ok (.inr x, r) := by
+  simp [decodeAddrResult, h]
+
+theorem addr_encode_ne_nil {kinds : List AddrKind} (a : SockAddr) (hv : a.valid kinds = true) : 1 ≤ (a.encode kinds).length := by
+  unfold SockAddr.valid at hv
+  unfold SockAddr.encode
+  split at hv
+  · simp
+  · cases hv
+
+
+/-! ### vector values, chunks -/
+
+theorem ofList_toList : ∀ (v : Val), v.allElems (fun _ => true) = true → Val.ofList v.toList = v
+  | .unit, _ => by simp [Val.toList, Val.ofList]
+  | .pair x xs, h => by
+    simp only [Val.allElems, Bool.true_and] at h
+    simp [Val.toList, Val.ofList, ofList_toList xs h]
+  | .nat _, h => by simp [Val.allElems] at h
+  | .bytes _, h => by simp [Val.allElems] at h
+
+theorem toList_ofList : ∀ (l : List Val), (Val.ofList l).toList = l ∧ (Val.ofList l).allElems (fun _ => true) = true
+  | [] => by simp [Val.ofList, Val.toList, Val.allElems]
+  | x :: xs => by simp [Val.ofList, Val.toList, Val.allElems, toList_ofList xs]
+
+theorem chunks_encode_length (n : Nat) : ∀ (v : Val), v.allElems (chunkOk n) = true → (encList chunkEnc v).length = v.len * n
+  | .unit, _ => by simp [encList, Val.len]
+  | .pair x xs, h => by
+    simp only [Val.allElems, Bool.and_eq_true] at h
+    cases x <;> simp [chunkOk] at h
+    rename_i b
+    simp [encList, chunkEnc, Val.len, chunks_encode_length n xs h.2, h.1]; rw [Nat.add_mul]; omega
+  | .nat _, h => by simp [Val.allElems] at h
+  | .bytes _, h => by simp [Val.allElems] at h
+
+theorem chunkVals_encList (n : Nat) : ∀ (v : Val), v.allElems (chunkOk n) = true → chunkVals n v.len (encList chunkEnc v) = v
+  | .unit, _ => by simp [encList, Val.len, chunkVals]
+  | .pair x xs, h => by
+    simp only [Val.allElems, Bool.and_eq_true] at h
+    cases x <;> simp [chunkOk] at h
+    rename_i b
+    simp [encList, chunkEnc, Val.len, chunkVals, List.take_left' h.1, List.drop_left' h.1, chunkVals_encList n xs h.2]
+  | .nat _, h => by simp [Val.allElems] at h
+  | .bytes _, h => by simp [Val.allElems] at h
+
+theorem chunkVals_spec (n : Nat) : ∀ (k : Nat) (b : Bytes), k * n ≤ b.length →
+    (chunkVals n k b).allElems (chunkOk n) = true ∧ (encList chunkEnc (chunkVals n k b)).length = k * n
+  | 0, b, _ => by simp [chunkVals, Val.allElems, encList]
+  | k + 1, b, h => by
+    have hk : k * n + n ≤ b.length := by rw [Nat.add_mul] at h; omega
+    obtain ⟨i1, i2⟩ := chunkVals_spec n k (b.drop n) (by simp; omega)
+    have ht : (b.take n).length = n := by simp [List.length_take]; omega
+    refine ⟨by simp [chunkVals, Val.allElems, chunkOk, ht, i1], ?_⟩
+    simp [chunkVals, encList, chunkEnc, i2, ht]; rw [Nat.add_mul]; omega
+
 theorem field_roundtrip (ty : FieldTy) : ∀ (v : Val) (r : Bytes), ty.wf = true → ty.valid v = true →
     (ty.selfDelim = true ∨ r = []) → ty.decode (ty.encode v ++ r) = .ok (v, r) := by
   induction ty with
@@ -360,6 +600,28 @@ theorem field_roundtrip (ty : FieldTy) : ∀ (v : Val) (r : Bytes), ty.wf = true
       cases v <;> simp [FieldTy.encode]
     simp only [henc, FieldTy.decode, List.append_assoc, collLen_roundtrip _ hv'.1]
     exact decN_encList e r (fun x r hx => ih x r hwf.1 hx (.inl hwf.2)) v hv'.2
+  | sockAddr kinds =>
+    intro v r hwf hv _
+    simp only [FieldTy.wf] at hwf
+    cases v with
+    | pair x vs =>
+      cases x with
+      | nat id =>
+        simp only [FieldTy.valid, Bool.and_eq_true] at hv
+        obtain ⟨hl, hva⟩ := hv
+        simp only [FieldTy.encode, FieldTy.decode, decodeAddr, addr_roundtrip hwf ⟨id, vs.toList⟩ r hva, ofList_toList vs hl]
+      | _ => simp [FieldTy.valid] at hv
+    | _ => simp [FieldTy.valid] at hv
+  | chunks n =>
+    intro v r hwf hv hsd
+    have hr : r = [] := by cases hsd with | inl h => simp [FieldTy.selfDelim] at h | inr h => exact h
+    subst hr
+    simp only [FieldTy.wf, decide_eq_true_eq] at hwf
+    have hv' : v.allElems (chunkOk n) = true := by cases v <;> simpa [FieldTy.valid] using hv
+    have henc : (FieldTy.chunks n).encode v = encList chunkEnc v := by cases v <;> simp [FieldTy.encode]
+    have hlen := chunks_encode_length n v hv'
+    simp only [henc, List.append_nil, FieldTy.decode, hlen, Nat.mul_mod_left, if_true, Nat.mul_div_cancel _ hwf,
+      chunkVals_encList n v hv']
 
 
 /-! ### TLV stream loop on a well-framed stream -/
@@ -970,6 +1232,24 @@ theorem field_decode_suffix (ty : FieldTy) : ∀ (b : Bytes) (v : Val) (r : Byte
       obtain ⟨_, p1, e1⟩ := collLen_ok h1
       obtain ⟨p2, e2⟩ := decN_suffix e.decode ih _ _ _ _ h
       exact ⟨p1 ++ p2, by rw [e1, e2, List.append_assoc]⟩
+  | sockAddr kinds =>
+    intro b v r h
+    simp only [FieldTy.decode, decodeAddr] at h
+    split at h
+    · cases h
+    · rename_i a r' hd
+      split at hd
+      · cases hd
+      · rename_i a' r'' hd'
+        cases hd; cases h
+        exact ⟨_, (addr_decode_exact hd').1⟩
+      · cases hd
+  | chunks n =>
+    intro b v r h
+    simp only [FieldTy.decode] at h
+    split at h
+    · cases h; exact ⟨b, by simp⟩
+    · cases h
 
 theorem decodeFixed_suffix : ∀ (ts : List FieldTy) (b : Bytes) (vs : List Val) (r : Bytes),
     decodeFixed ts b = .ok (vs, r) → ∃ pre, b = pre ++ r
@@ -1181,6 +1461,38 @@ theorem field_decode_spec (ty : FieldTy) : ∀ (b : Bytes) (v : Val) (r : Bytes)
         cases v <;> simp [FieldTy.valid]
       refine ⟨by rw [hval, c1, c2]; simpa using l, ?_⟩
       rw [henc, List.length_append, c1]; omega
+  | sockAddr kinds =>
+    intro b v r _ _ h
+    simp only [FieldTy.decode, decodeAddr] at h
+    split at h
+    · cases h
+    · rename_i a r' hd
+      split at hd
+      · cases hd
+      · rename_i a' r'' hd'
+        cases hd; cases h
+        obtain ⟨e, hv⟩ := addr_decode_exact hd'
+        obtain ⟨t1, t2⟩ := toList_ofList a.vals
+        refine ⟨by simp [FieldTy.valid, t1, t2, hv], ?_⟩
+        simp only [FieldTy.encode, t1]
+        rw [e]; simp
+      · cases hd
+  | chunks n =>
+    intro b v r _ _ h
+    simp only [FieldTy.decode] at h
+    split at h
+    · rename_i hm
+      cases h
+      have hk : b.length / n * n ≤ b.length := Nat.div_mul_le_self _ _
+      obtain ⟨s1, s2⟩ := chunkVals_spec n (b.length / n) b hk
+      have henc : ∀ v, (FieldTy.chunks n).encode v = encList chunkEnc v := by intro v; cases v <;> simp [FieldTy.encode]
+      have hval : ∀ v, (FieldTy.chunks n).valid v = v.allElems (chunkOk n) := by intro v; cases v <;> simp [FieldTy.valid]
+      refine ⟨by rw [hval]; exact s1, ?_⟩
+      rw [henc, s2]
+      have := Nat.div_add_mod b.length n
+      rw [hm, Nat.mul_comm] at this
+      simp; omega
+    · cases h
 
 
 /-! ### any stream that decodes is well framed; what the loop returns is a valid TLV value list -/
